@@ -33,10 +33,12 @@ def _verif_probe(inp, tinp=None, zinp=None, lat=None, lon=None, tag=0):
     def canon(a):
         if a is None:
             return None
-        a = np.asarray(a)
+        msk = np.ma.getmaskarray(a).reshape(-1) if isinstance(a, np.ma.MaskedArray) else None
+        a = np.asarray(np.ma.getdata(a))
         if np.issubdtype(a.dtype, np.datetime64):
             return [int(v) for v in a.astype("datetime64[s]").astype("int64")]
-        return [None if (isinstance(v, float) and v != v) else float(v) for v in a.astype("float64").tolist()]
+        vals = [None if (isinstance(v, float) and v != v) else float(v) for v in a.astype("float64").tolist()]
+        return vals if msk is None else [None if m else v for v, m in zip(vals, msk)]
     PROBE_LOG.append({"tag": tag, "inp": canon(inp), "tinp": canon(tinp), "zinp": canon(zinp), "lat": canon(lat), "lon": canon(lon)})
     return np.ma.ones(np.asarray(inp).size, dtype="uint8")
 
@@ -97,6 +99,11 @@ def table_index(tab):
 
 def fl(vals):
     return np.array([np.nan if v is None else float(v) for v in vals], dtype="float64")
+
+
+def fl_masked(vals):
+    """Missing cells as a masked array holding a finite number under the mask."""
+    return np.ma.array([7.25 if v is None else float(v) for v in vals], mask=[v is None for v in vals], dtype="float64")
 
 
 def times_ns(tab):
@@ -252,9 +259,12 @@ def run_frontend(fe, tab, cfg_dict, tmpdir=None):
         if fe == "pandas":
             st = PandasStream(make_df(tab))
         elif fe == "numpy":
-            kw = {"inp": {s: fl(v) for s, v in tab["cols"].items()}, "time": times_ns(tab)}
+            # the container of the columns varies with the table (deterministically): NaN arrays, or masked arrays with
+            # a finite number under the mask
+            conv = fl_masked if (tab["n"] + len(tab["cols"])) % 3 == 0 else fl
+            kw = {"inp": {s: conv(v) for s, v in tab["cols"].items()}, "time": times_ns(tab)}
             for a, v in tab["axes"].items():
-                kw[a] = fl(v)
+                kw[a] = conv(v)
             st = NumpyStream(**kw)
         elif fe == "xarray":
             st = XarrayStream(make_ds(tab))
@@ -285,12 +295,14 @@ def canon_ctx_result(r):
     def arr(a):
         if a is None:
             return None
-        a = np.asarray(a)
+        msk = np.ma.getmaskarray(a).reshape(-1) if isinstance(a, np.ma.MaskedArray) else None
+        a = np.asarray(np.ma.getdata(a))
         if a.size == 0:
             return []
         if np.issubdtype(a.dtype, np.datetime64):
             return [int(v) for v in a.astype("datetime64[s]").astype("int64")]
-        return [None if v != v else float(v) for v in a.astype("float64").reshape(-1).tolist()]
+        vals = [None if v != v else float(v) for v in a.astype("float64").reshape(-1).tolist()]
+        return vals if msk is None else [None if m else v for v, m in zip(vals, msk)]
     return {
         "stream_id": r.stream_id,
         "mask": [bool(b) for b in np.asarray(r.subset_indexes).reshape(-1)],
